@@ -8,11 +8,17 @@
 (*  - LiftLemma: under synchronising block substitution a -> a pad^(s-1) with   *)
 (*    pl / pr pad bytes of padding, every oracle maps through i -> pl + s*i.    *)
 EXTENDS Bytes, TLC, Json
-CONSTANTS Alpha, MinN, MaxN, MaxH, Scales, CheckLift, Emit
+CONSTANTS Alpha, MinN, MaxN, MaxH, Scales, CheckLift, Emit,
+          Hole      \* FALSE: haystacks over Alpha; TRUE: one position of the haystack is replaced by HoleSym
+HoleSym == 2
 Pads == {<<0, 0>>, <<2, 1>>, <<0, 3>>}
 VARIABLES n, h, done
 \* the invariants are evaluated on the successor state (done = TRUE) so that TLC's workers share the load
-Init == n \in Seqs(Alpha, MinN, MaxN) /\ h \in Seqs(Alpha, 0, MaxH) /\ done = FALSE
+Init == /\ n \in Seqs(Alpha, MinN, MaxN)
+        /\ \E hb \in Seqs(Alpha, 0, MaxH) :
+             IF ~Hole THEN h = hb
+             ELSE \E p \in 1..Len(hb) : h = [hb EXCEPT ![p] = HoleSym]
+        /\ done = FALSE
 Next == ~done /\ done' = TRUE /\ UNCHANGED <<n, h>>
 Pad == 99                                     \* a symbol outside Alpha
 RECURSIVE Phi(_, _)
